@@ -43,6 +43,9 @@ def make_batch(rng):
         # reads a key that only the --input-parameters document provides (when the batch has one): every pair must see it
         lines.append("rule rp {\n    zp == %s or zp !exists\n    zp exists or %s exists\n}" % (gen.glit(rng.choice(vals)), k1))
         rules.append("\n".join(lines) + "\n")
+    if rng.random() < 0.4:
+        # a last rules file that every document satisfies: the run as a whole still fails iff some earlier pair fails
+        rules.append("rule zz_always {\n    this exists\n    m exists or l exists\n}\n")
     return rules, docs
 
 
